@@ -215,8 +215,11 @@ fn run_once(w: &mut Box<dyn World>, hist: &[usize], cmd: &[Bytes], form: Option<
             v
         }
         _ => {
+            // (the command name goes into redis.call in lower case here and as given in the other forms: names are
+            // case-insensitive inside scripts as they are outside)
             let mut v = vec![b("EVAL"), b(CALL), b("0")];
             v.extend(cmd.iter().cloned());
+            v[3] = v[3].to_ascii_lowercase();
             v
         }
     };
